@@ -34,7 +34,12 @@ def validate_docs(res):
         validators[kind] = jsonschema.Draft202012Validator({"$ref": f"#/$defs/{name}", "$defs": defs})
     n = bad = 0
     for line in open(p):
-        rec = json.loads(line)
+        try:
+            rec = json.loads(line)
+        except json.JSONDecodeError:
+            # the bounded run was stopped (time limit) while writing: what it wrote so far is validated, the rest is reported
+            res.errors.append("bounded.c03 did not finish writing its documents (stopped by its time limit)")
+            break
         n += 1
         errs = list(validators[rec["kind"]].iter_errors(rec["doc"]))
         if errs and bad < 3:
@@ -59,7 +64,7 @@ def run(tier, seed):
     ]
     res.assumptions = ["operations are complete (an incomplete operation makes serialization raise: may_raise clauses)",
                        "index sanity (root first, parents earlier, endpoints exist) depends on the heap-ordered listing loop of Hugr._to_serial, which is not under contract: bounded only"]
-    standard_flow(res, FILES, TARGETS, None, bounded_modules=[("bounded.c03", 300, 1800)])
+    standard_flow(res, FILES, TARGETS, None, bounded_modules=[("bounded.c03", 900, 1800)])
     apply_known(res, "C03")
     validate_docs(res)
     res.level = "other"
